@@ -60,6 +60,14 @@ def _format_arg(arg: Any) -> str:
     return f'<ERROR FORMATTING {type(arg)} ARGUMENT>'
 
 
+def _format_callable(fn_or_cls: Any) -> str:
+  """Returns str(fn_or_cls), returning a constant string if str() fails."""
+  try:
+    return str(fn_or_cls)
+  except Exception:  # pylint: disable=broad-except
+    return f'<ERROR FORMATTING {type(fn_or_cls)} CALLABLE>'
+
+
 def _make_message(
     current_path: daglish.Path,
     buildable: config_lib.Buildable,
@@ -72,7 +80,9 @@ def _make_message(
   try:
     fn_or_cls_name = fn_or_cls.__qualname__
   except AttributeError:
-    fn_or_cls_name = str(fn_or_cls)  # callable instances, etc.
+    # Callable instances, functools.partial objects, etc. Their str() runs user
+    # code (e.g. the repr() of a partial's bound arguments), which can fail.
+    fn_or_cls_name = _format_callable(fn_or_cls)
   args_str = ', '.join(f'{_format_arg(value)}' for value in args)
   kwargs_str = ', '.join(
       f'{name}={_format_arg(value)}' for name, value in kwargs.items()
